@@ -5,7 +5,7 @@ def run(tier, seed):
     c = vlib.GoCheck("C21", "model_checking", tier, seed)
     n = 3 if tier == "quick" else 4
     c.assumptions = [
-        "document: 0..%d fully symbolic bytes, valid UTF-8 (ASCII, 2-, 3- and 4-byte characters), carriage return only as part of CRLF; one incremental change with symbolic start/end (line, character) each in 0..6 and a replacement text of 0..2 symbolic bytes; plus the full-document change" % n,
+        "document: 0..%d fully symbolic bytes (quick additionally: every 4-byte document that is a single supplementary-plane character), valid UTF-8 (ASCII, 2-, 3- and 4-byte characters), carriage return only as part of CRLF; one incremental change with symbolic start/end (line, character) each in 0..6 and a replacement text of 0..2 symbolic bytes; plus the full-document change" % n,
         "oracle: the client's model written in the harness - lines split at newline, characters counted in UTF-16 code units, edit applied between the two positions",
         "positions inside a surrogate pair or between CR and LF: no claim (clients must not send them)",
         "DocumentURI.Path (net/url parsing) is an opaque stub; logging and SyncFile are not reached by changedText",
@@ -13,6 +13,6 @@ def run(tier, seed):
     ]
     c.bounds["doc_bytes_max"] = n
     c.run_unit("internal/lsp", "lsp", opts={"maxdecisions": 3000, "samples": 3,
-               "caselimit": "VfH_change=%d" % (3 * (n + 1)),
+               "caselimit": "VfH_change=%d" % (15 if tier == "quick" else 18),
                "stubstr": "(wa-lang.org/wa/internal/lsp/protocol.DocumentURI).Path"})
     return c.finish()
